@@ -67,7 +67,7 @@ func runProgram(t *vlib.T, gd *lpGuard, st *lpStats, m, n int, a, b, c []float64
 		st.numeric = append(st.numeric, fmt.Sprintf("%v: %s", err, fmtProg(m, n, a, b, c)))
 	}
 	if msg != "" {
-		t.SubViolation(" "+fmtProg(m, n, a, b, c), vclass, nil, "%s [%s; exact: %v%s]", msg, fmtProg(m, n, a, b, c), ans.class, optStr(&ans))
+		report(t, " "+fmtProg(m, n, a, b, c), vclass, nil, "%s [%s; exact: %v%s]", msg, fmtProg(m, n, a, b, c), ans.class, optStr(&ans))
 	}
 	if sweep && ans.precondOK && m < n {
 		for _, basis := range ans.feasible {
@@ -76,7 +76,7 @@ func runProgram(t *vlib.T, gd *lpGuard, st *lpStats, m, n int, a, b, c []float64
 			st.n["basis:"+oc]++
 			t.Count("lp_initial_basis_runs", 1)
 			if msg != "" {
-				t.SubViolation(fmt.Sprintf(" %s initialBasic=%v", fmtProg(m, n, a, b, c), basis), vclass, nil, "with initialBasic=%v: %s [%s; exact: %v%s]", basis, msg, fmtProg(m, n, a, b, c), ans.class, optStr(&ans))
+				report(t, fmt.Sprintf(" %s initialBasic=%v", fmtProg(m, n, a, b, c), basis), vclass, nil, "with initialBasic=%v: %s [%s; exact: %v%s]", basis, msg, fmtProg(m, n, a, b, c), ans.class, optStr(&ans))
 			}
 		}
 	}
@@ -86,8 +86,24 @@ func runProgram(t *vlib.T, gd *lpGuard, st *lpStats, m, n int, a, b, c []float64
 // every column permutation (Bland's rule and the initial-basis search depend on
 // the column order), and assignment polytopes.
 func genLPFamily(g *vlib.G) {
+	g.Case("classical examples in textbook column order", func(t *vlib.T) {
+		st := newLPStats()
+		runGuarded(t, func(gd *lpGuard) {
+			for _, p := range degenerateFamily() {
+				runProgram(t, gd, st, p.m, p.n, p.a, p.b, p.c, newStdMatrix(p.m, p.n, p.a), true)
+			}
+		})
+		st.flush(t)
+	})
 	for _, p := range degenerateFamily() {
 		p := p
+		if p.name == "Kuhn" && !g.Thorough() {
+			// Column permutations of Kuhn's example make lp.Simplex cycle for ever (known
+			// finding lp-simplex-cycling-kuhn-variant, exercised by group lp-cycling); every
+			// hang costs hangCPU seconds and cuts its case short, so the permutations of
+			// this example are left to the thorough tier.
+			continue
+		}
 		// one case per choice of the first column
 		for first := 0; first < p.n; first++ {
 			first := first
@@ -267,7 +283,7 @@ func convertOne(t *vlib.T, gd *lpGuard, st *lpStats, sp *convSpace, G, h, A, b, 
 		return fmt.Sprintf("G=%v h=%v A=%v b=%v c=%v (vars=%d)", G, h, A, b, c, nv)
 	}
 	fail := func(class, format string, a ...any) {
-		t.SubViolation(" "+desc(), class, nil, "%s [%s]", fmt.Sprintf(format, a...), desc())
+		report(t, " "+desc(), class, nil, "%s [%s]", fmt.Sprintf(format, a...), desc())
 	}
 	t.Count("lp_convert_programs", 1)
 	var gm, am mat.Matrix
@@ -376,4 +392,25 @@ func convertOne(t *vlib.T, gd *lpGuard, st *lpStats, sp *convSpace, G, h, A, b, 
 			}
 		}
 	}
+}
+
+// genLPCycling holds the one program on which lp.Simplex is known to cycle for
+// ever: Kuhn's example (second row scaled by 3) with its last two columns
+// exchanged. It is the last group of the harness so that the abandoned, still
+// spinning call competes with no other case for the CPU.
+func genLPCycling(g *vlib.G) {
+	g.Case("Kuhn's example with columns 5 and 6 exchanged", func(t *vlib.T) {
+		a := []float64{
+			1, 0, 0, -2, -9, 9, 1,
+			0, 3, 0, 1, 3, -6, -1,
+			0, 0, 1, 2, 3, -12, -1}
+		b := []float64{0, 0, 2}
+		c := []float64{0, 0, 0, -2, -3, 12, 1}
+		st := newLPStats()
+		runGuarded(t, func(gd *lpGuard) {
+			runProgram(t, gd, st, 3, 7, a, b, c, newStdMatrix(3, 7, a), false)
+		})
+		st.flush(t)
+		t.Nontrivial()
+	})
 }
